@@ -59,13 +59,18 @@ impl MainState {
                         RplInviting341 { client: str_of(client_name_spec(old(conn_state).user_state)), nick: nickname, channel }))
                 &&& (r is Ok ==> final(outbox).log == old(outbox).log.push((ou.sender.id(), render(*msg, old(conn_state).user_state.source@))))
             }),
-            state_wf(*final(state)), // @prop C04
+            sym(*final(state)), // @prop C04
+            chans_wf(*final(state)), // @prop C04,C08
+            no_empty_chan(*final(state)), // @prop C16
+            wallops_wf(*final(state)), // @prop C11,C06
+            counters_wf(*final(state)), // @prop C19
+            senders_distinct(*final(state)), // @prop C02,C01
             conn_ok(*final(conn_state), *final(state)), // @prop C09
 //@open
         broadcast use group_hash_axioms, bridge;
         proof {
             // available at every exit (the `?` exits included): whatever state results from recording the invitation is well formed
-            assert forall|n: VolatileState| invited_upd(*old(state), n, sk(nickname), sk(channel)) implies #[trigger] state_wf(n) by {
+            assert forall|n: VolatileState| #![trigger state_wf(n)] #![trigger sym(n)] #![trigger chans_wf(n)] #![trigger no_empty_chan(n)] #![trigger wallops_wf(n)] #![trigger counters_wf(n)] #![trigger senders_distinct(n)] invited_upd(*old(state), n, sk(nickname), sk(channel)) implies state_wf(n) by {
                 lemma_invited_wf(*old(state), n, sk(nickname), sk(channel));
             }
         }
